@@ -142,9 +142,80 @@ def r_index_space(ck: Checker) -> None:
     ck.need(n >= 6, f"index stores inside enumerate loops found ({n})")
 
 
+def _container_inits(func) -> dict[str, list[ast.stmt]]:  # type: ignore[no-untyped-def]
+    out: dict[str, list[ast.stmt]] = {}
+    for n in ast.walk(func.node):
+        if isinstance(n, (ast.Assign, ast.AnnAssign)) and n.value is not None:
+            t = n.targets[0] if isinstance(n, ast.Assign) else n.target
+            if isinstance(t, ast.Name) and (_is_mutable_value(n.value) or (isinstance(n.value, ast.Call) and isinstance(n.value.func, ast.Name) and n.value.func.id[:1].isupper())):
+                out.setdefault(t.id, []).append(n)
+    return out
+
+
+def r_loop_state(ck: Checker) -> None:
+    """a container (or helper object) that is filled AND consulted inside a loop and that nothing outside the loop ever
+    looks at describes one iteration: it is created inside the loop. Created before the loop it silently carries what
+    earlier iterations (earlier statements of the program) recorded into the decisions about later ones."""
+    n = 0
+    for func in ck.prg.funcs.values():
+        if isinstance(func.node, ast.Lambda):
+            continue
+        inits = _container_inits(func)
+        if not inits:
+            continue
+        loops = [x for x in ast.walk(func.node) if isinstance(x, (ast.For, ast.While))]
+        nested = {id(y) for lp in loops for y in ast.walk(lp) if isinstance(y, (ast.FunctionDef, ast.Lambda))}
+        for name, stmts in inits.items():
+            if len(stmts) != 1:
+                continue
+            init = stmts[0]
+            loads = [x for x in ast.walk(func.node) if isinstance(x, ast.Name) and x.id == name and isinstance(x.ctx, ast.Load)]
+            stores = [x for x in ast.walk(func.node) if isinstance(x, ast.Name) and x.id == name and isinstance(x.ctx, ast.Store)]
+            if len(stores) != 1 or not loads:
+                continue
+            # the outermost loop that contains every use of the container
+            holder = None
+            for lp in loops:
+                inside = {id(y) for y in ast.walk(lp)}
+                if all(id(x) in inside for x in loads) and (holder is None or id(lp) not in {id(y) for y in ast.walk(holder)} or lp is holder):
+                    if holder is None or id(holder) in inside:
+                        holder = lp
+            if holder is None:
+                continue
+            inside = {id(y) for y in ast.walk(holder)}
+            recv_of_mut = set()
+            mutated = False
+            for y in ast.walk(holder):
+                if isinstance(y, ast.Call) and isinstance(y.func, ast.Attribute) and y.func.attr in MUTATORS:
+                    base = y.func.value
+                    while isinstance(base, ast.Subscript):
+                        base = base.value
+                    if isinstance(base, ast.Name) and base.id == name:
+                        mutated = True
+                        recv_of_mut.add(id(base))
+                elif isinstance(y, (ast.Assign, ast.AugAssign)):
+                    tg = y.targets[0] if isinstance(y, ast.Assign) else y.target
+                    base = tg
+                    while isinstance(base, (ast.Subscript, ast.Attribute)):
+                        base = base.value
+                    if isinstance(tg, (ast.Subscript, ast.Attribute)) and isinstance(base, ast.Name) and base.id == name:
+                        mutated = True
+                        recv_of_mut.add(id(base))
+            consulted = [x for x in loads if id(x) not in recv_of_mut]
+            if not mutated or not consulted:
+                continue
+            n += 1
+            ok = id(init) in inside
+            ck.add(f"{tag(func.module.name)} {func.name}: `{name}` serves one iteration of the loop that fills and consults it, and is created there", ok, func, init,
+                   f"`{short(unparse(init), 60)}` " + ("inside" if ok else "BEFORE") + f" the loop at line {holder.lineno}; nothing outside the loop reads it",
+                   "state created before the loop accumulates over all iterations: what was recorded for an earlier statement then decides how a later one is rewritten")
+    ck.need(n >= 10, f"per-iteration containers found ({n})")
+
+
 _EXTRA = module_extra()
 
 RULES = [
     Rule("GEN.class-state", ("C17", "C01"), r_class_state, extra=_EXTRA),
     Rule("GEN.index-space", ("C01",), r_index_space, extra=_EXTRA),
+    Rule("GEN.loop-state", ("C01",), r_loop_state, extra=_EXTRA),
 ]
